@@ -63,6 +63,19 @@ def parser_for(lang, loc, norm, ref):
     return _PARSERS[key]
 
 
+_SP = {}
+
+
+def strict_parser_for(lang, loc, norm, ref):
+    from dateparser.date import DateDataParser
+
+    key = (lang, loc, norm, ref)
+    if key not in _SP:
+        kw = {"languages": [lang]} if loc == lang else {"locales": [loc]}
+        _SP[key] = DateDataParser(settings={"RELATIVE_BASE": ref, "NORMALIZE": norm, "STRICT_PARSING": True}, **kw)
+    return _SP[key]
+
+
 def classify(loc, word, canonical, s):
     """Mechanism label from the translate tap: was the canonical English name produced at all?"""
     if not TranslateTap.available:
@@ -116,6 +129,19 @@ def check_entry(ctx, e, norm, days, years, refs):
                     break
             if bad:
                 break
+        if not bad:
+            # a complete 'D <month> YYYY' states day, month and year: STRICT_PARSING must not change what it parses to
+            # (two-digit day: in year-first locales it is first tried as a year)
+            s = "13 %s 2015" % word
+            try:
+                r = strict_parser_for(lang, loc, norm, ref).get_date_data(s)["date_obj"]
+            except Exception as ex:
+                r = ex
+            ctx.ran()
+            ctx.count("strict_pass_checked")
+            if r != datetime(2015, mi, 13):
+                TranslateTap.reset()
+                bad = (s, r, datetime(2015, mi, 13), "complete-date-lost-under-STRICT_PARSING")
     else:
         wi = vocab.WEEKDAYS.index(key)
         for ref in refs:
